@@ -211,6 +211,19 @@ fn run(sh: &mut Shard) {
         }
         sh.running()
     });
+    // the offset sweep (C11): every operand byte value of the jumps and slots of 26 small control programs
+    super::c11::offset_sweep(&mut |prog| {
+        if sh.mine() {
+            let text = printer::program(prog);
+            sh.begin(&|| text.clone());
+            sh.count("family:offset-sweep");
+            let c = check_ast(sh, &ops, "offset-sweep", &text, &prog.to_vec());
+            if c.compiled {
+                sh.nontrivial(&text);
+            }
+        }
+        sh.running()
+    });
     // exits across function boundaries (C11), all paths of whatever the compiler accepts
     super::c11::exit_scopes(&mut |prog| {
         if sh.mine() {
